@@ -816,10 +816,15 @@ impl Brc20ProgDatabase {
             self.latest_block_number = Some((block_number, block_hash));
         }
 
-        self.db_global_values
-            .as_mut()
-            .expect(DB_MUTEX_ERROR)
-            .set(MAX_BLOCK_NUMBER_KEY.to_string(), block_number.to_string())?;
+        // Highest block ever finalised: it must not go down when blocks are rebuilt after a reorg,
+        // histories have already been pruned relative to it
+        let global_values = self.db_global_values.as_mut().expect(DB_MUTEX_ERROR);
+        let max_block_number = global_values
+            .get(MAX_BLOCK_NUMBER_KEY.to_string())?
+            .and_then(|x| x.parse::<u64>().ok());
+        if max_block_number.map_or(true, |max| block_number > max) {
+            global_values.set(MAX_BLOCK_NUMBER_KEY.to_string(), block_number.to_string())?;
+        }
 
         self.db_block_number_to_hash
             .as_mut()
